@@ -18,7 +18,7 @@ ASSUMPTIONS = ["Havok binary tag file format v3 as read by the reference readers
 
 def plan(tier):
     if tier == "quick":
-        return [("debug", 8, dict(n=14))]
+        return [("debug", 16, dict(n=25)), ("release", 4, dict(n=15)), ("asan", 2, dict(n=8))]
     return [("debug", 16, dict(n=190)), ("release", 4, dict(n=100)), ("asan", 4, dict(n=25))]
 
 
